@@ -48,6 +48,7 @@ CFG = {
         'coverage_find_const': {1: '''__CPROVER_assigns(a, b)
 __CPROVER_loop_invariant(a <= b && b <= self->__base0.len)
 __CPROVER_decreases(b - a)'''},
+
     },
 }
 ROOTS = ['coverage::find|coverage::const_iterator (uint64_t) const', 'coverage::find|coverage::iterator (uint64_t)',
@@ -115,12 +116,18 @@ def jobs(tier):
     for f, n in wsizes.items():
         word(f, n)
     ssrc = [os.path.join(HERE, 'harness.c'), os.path.join(HERE, 'vecmodel.c'), os.path.join(OUT, 'cov_bodies.c')]
-    def safe(name, harness, enforce, replace=(), lc=False, **kw):
+    def safe(name, harness, enforce, replace=(), lc=False, defines_extra=(), **kw):
         J.append(Job('safe_' + name, ssrc, harness, enforce=enforce, replace=replace, loop_contracts=lc,
-                     includes=inc, inputs=INPUTS, defines=['C16_SAFE'], kind='proof', timeout=900,
+                     includes=inc, inputs=INPUTS, defines=['C16_SAFE'] + list(defines_extra), kind='proof', timeout=900,
                      note='unbounded in the number of ranges (n <= 4096 keeps pointer arithmetic in one object)', **kw))
     safe('find_const', 'h_find_const', 'coverage_find_const', lc=True)
     safe('find', 'h_find', 'coverage_find', replace=['coverage_find_const'])
+    safe('vec_push_back', 'h_vec_push_back', 'vec_push_back', defines_extra=['VEC_LOOP_CONTRACTS'])
+    safe('vec_insert', 'h_vec_insert', 'vec_insert', lc=True, defines_extra=['VEC_LOOP_CONTRACTS'])
+    safe('vec_erase', 'h_vec_erase', 'vec_erase', lc=True, defines_extra=['VEC_LOOP_CONTRACTS'])
+    # safe('add', ...) with the loop contract in CFG['loop_contracts']['coverage_add'] and the three vector
+    # operations replaced by their contracts was tried and is NOT part of the check: propositional reduction
+    # ran out of memory at 24 GB and 45 GB, also with a constant capacity of 64 and of 8 (see DESIGN.md).
     safe('is_covered', 'h_is_covered', 'coverage_is_covered', replace=['coverage_find_const'])
     safe('is_overlap', 'h_is_overlap', 'coverage_is_overlap', replace=['coverage_find_const'])
     J.append(Job('control', bsrc, 'hb_control', includes=inc, defines=['C16_NMAX=2', 'VERIF_CONTROL'],
